@@ -243,6 +243,62 @@ type shape struct {
 
 var shapes = []shape{{true, 0, 0}, {false, 0, 0}, {false, 0, 8192}, {false, 8192, 8192}, {false, 100, 100000}}
 
+// bound is the worst-case frame size the wrappers size their buffer with (LZ4_compressBound =
+// lz4.CompressBlockBound, ZSTD_compressBound); only used to place scratch capacities around it
+func bound(enc string, n int) int {
+	switch enc {
+	case "lz4":
+		return n + n/255 + 16
+	case "zstd":
+		b := n + n>>8
+		if n < 128<<10 {
+			b += (128<<10 - n) >> 11
+		}
+		return b
+	}
+	return n
+}
+
+// scratch capacities RELATIVE to the input: just around len(data) and just around the bound, i.e. buffers
+// that can hold the input but not (or just) the worst-case frame
+var relNames = []string{"n-1", "n", "n+1", "n+8", "b-1", "b", "b+1"}
+
+func relCap(enc string, n int, rel string) int {
+	c := map[string]int{"n-1": n - 1, "n": n, "n+1": n + 1, "n+8": n + 8,
+		"b-1": bound(enc, n) - 1, "b": bound(enc, n), "b+1": bound(enc, n) + 1}[rel]
+	return max(c, 0)
+}
+
+// relPrefix: incompressible (and a few compressible) blocks with a scratch buffer sized relative to them, for
+// lz4 and zstd in their cgo (cfg cgo) and native (cfg nocgo) variants, levels spread over the range
+func relPrefix(k int) input {
+	if k >= 36 { // 4 large ones
+		k -= 36
+		e := []string{"lz4", "zstd"}[k%2]
+		in := input{Cfg: []string{"cgo", "nocgo"}[k/2], Enc: e, Level: 3 + 4*k, Kind: "random", Size: 200000,
+			DSeed: uint64(1000 + k), HasDst: true, Src: "file"}
+		in.SCap = relCap(e, in.Size, []string{"n+8", "n+1"}[k%2])
+		in.SLen = in.SCap * (k / 2)
+		return in
+	}
+	e := []string{"lz4", "zstd"}[k%2]
+	c := []string{"cgo", "nocgo"}[(k/2)%2]
+	size := []int{64, 4096, 16380}[(k/4)%3]
+	rel := []string{"n+1", "n+8", "b-1"}[k/12]
+	in := input{Cfg: c, Enc: e, Level: 1 + (k*5)%12, Kind: "random", Size: size, DSeed: uint64(500 + k), HasDst: true,
+		Src: []string{"bytes", "file"}[k%2]}
+	if k%9 == 8 {
+		in.Kind = "text"
+	}
+	in.SCap = relCap(e, size, rel)
+	if (k/2)%2 == 1 || k%3 == 0 {
+		in.SLen = in.SCap
+	}
+	return in
+}
+
+const nRelPrefix = 40
+
 func gen(r *vhlib.Rand, i int, o vhlib.Opts) any {
 	// deterministic prefix: per configuration and encoder the empty block, one byte, and a block written
 	// the way GPFile does it (scratch of length 8192, *os.File source)
@@ -258,6 +314,9 @@ func gen(r *vhlib.Rand, i int, o vhlib.Opts) any {
 			in.Size, in.SLen, in.SCap, in.Src, in.Rest, in.OExtra = 5000, 8192, 8192, "file", 64, 8192-5000
 		}
 		return in
+	}
+	if i < 36+nRelPrefix {
+		return relPrefix(i - 36)
 	}
 	in := input{Cfg: vhlib.Pick(r, cfgNames), HasDst: true, DSeed: r.U64() >> 16}
 	switch x := r.Intn(100); {
@@ -308,7 +367,15 @@ func gen(r *vhlib.Rand, i int, o vhlib.Opts) any {
 			in.Size = r.Intn(4097)
 		}
 	}
-	if r.Chance(75) {
+	if r.Chance(25) { // relative to the input; mostly incompressible data, where the frame exceeds len(data)
+		if r.Chance(60) {
+			in.Kind = "random"
+		}
+		in.SCap = relCap(in.Enc, in.Size, vhlib.Pick(r, relNames))
+		if r.Bool() {
+			in.SLen = in.SCap
+		}
+	} else if r.Chance(70) {
 		s := vhlib.Pick(r, shapes)
 		in.SNil, in.SLen, in.SCap = s.n, s.len, s.cap
 	} else {
@@ -422,6 +489,14 @@ func run(raw json.RawMessage, o vhlib.Opts) (*vhlib.Case, error) {
 		sh = "scratch-nil"
 	} else if in.SCap != 8192 && in.SCap != 100000 && in.SCap != 0 {
 		sh = "scratch-random"
+		if b := bound(in.Enc, in.Size); in.SCap >= in.Size-1 && in.SCap <= b+1 {
+			sh = "scratch-rel:data<=cap<bound"
+			if in.SCap >= b {
+				sh = "scratch-rel:cap~bound"
+			} else if in.SCap < in.Size {
+				sh = "scratch-rel:cap<data"
+			}
+		}
 	}
 	c := &vhlib.Case{Observed: ob,
 		Tags: []string{"cfg:" + in.Cfg, "enc:" + in.Enc, in.Enc + ":" + ob.Impl, "kind:" + in.Kind, "size:" + bucket(in.Size),
